@@ -7,7 +7,7 @@ from .. import gen_timing as GT
 
 ID = "C11"
 RULE = ("timing data: all placements of up to 2 (quick) / 3 (thorough) events on a 4-beat grid, random dyadic and general data with coinciding events, "
-        "corpus simfiles; probes: every event beat and warp end +-1 tick, negative and random beats, all seven tags; time within 1e-9 s of the exact "
+        "corpus simfiles; probes: every event beat and warp end +-1 tick, negative and random beats, beats off the tick grid a hundredth / a thousandth of a beat either side of them, all seven tags; time within 1e-9 s of the exact "
         "rational timeline, bpm_at exact; every probe asked again on the same engine in descending and in shuffled order with other queries in between; second scenario with the offset shifted and with redundant BPM rows inserted; non-trivial = >= 2 events")
 assumptions = ["binary64 evaluation stays within 1e-9 s of the exact rational on the bounded domain (times < 1e5 s, BPM <= 2000): measured here, not proved"]
 extra_trusted = ["Python Fraction/Decimal for the exact reference timeline (harness oracle)"]
@@ -73,6 +73,25 @@ def probes(c):
     return [(b, t) for b in beats for t in range(7)]
 
 
+def off_probes(c):
+    """beats off the 1/48 grid: a hundredth and a thousandth of a beat either side of every event beat and warp end, a third of a tick
+    after it, and a few arbitrary fractions; as exact (numerator, denominator) pairs"""
+    td = c["td"]
+    pts = {0}
+    for f in ("bpms", "stops", "delays", "warps"):
+        for b, v in td[f]:
+            pts.add(b)
+            if f == "warps":
+                pts.add(b + round(Fraction(Decimal(v)) * 48))
+    out = []
+    for p in sorted(pts)[:12]:
+        base = Fraction(p, 48)
+        for d in (Fraction(-1, 100), Fraction(1, 1000), Fraction(-1, 1000), Fraction(1, 144), Fraction(1, 7)):
+            q = base + d
+            out.append((q.numerator, q.denominator))
+    return out
+
+
 def with_redundant_bpms(td):
     """the same timing with a BPM row repeating the BPM in force inserted before every event"""
     bpms = [(b, v) for b, v in td["bpms"]]
@@ -119,14 +138,20 @@ def impl(c):
     shifted = [float(eng2.time_at(Beat(b, 48), EventTag(t))) for b, t in ps]
     eng3 = TimingEngine(GT.mk_timing_data(with_redundant_bpms(td)))
     redundant = [float(eng3.time_at(Beat(b, 48), EventTag(t))) for b, t in ps]
-    return {"times": times, "bpms": bpms, "default": default, "shifted": shifted, "redundant": redundant, "back": back, "shuf": shuf}
+    offp = off_probes(c)
+    off_times = [[float(eng.time_at(Beat(n, d), EventTag(t))) for t in range(7)] for n, d in offp]
+    off_bpms = [str(eng.bpm_at(Beat(n, d))) for n, d in offp]
+    return {"times": times, "bpms": bpms, "default": default, "shifted": shifted, "redundant": redundant, "back": back, "shuf": shuf,
+            "off_times": off_times, "off_bpms": off_bpms}
 
 
 def requests(c):
     ps = probes(c)
     pt = [[[b, 48], t] for b, t in ps]
     pb = [[b, 48] for b in sorted({b for b, _ in ps})]
-    return [[110, GT.td_q(c["td"]), pt, pb, [], []]]
+    offp = off_probes(c)
+    return [[110, GT.td_q(c["td"]), pt, pb, [], []],
+            [110, GT.td_q(c["td"]), [[[n, d], t] for n, d in offp for t in range(7)], [[n, d] for n, d in offp], [], []]]
 
 
 def model(c, ans):
@@ -138,9 +163,12 @@ def model(c, ans):
     bs = sorted({b for b, _ in ps})
     stop_tag = {b: times[i] for i, (b, t) in enumerate(ps) if t == 5}
     fq = lambda q: [q.numerator, q.denominator]
+    a2 = ans[1][1]
+    ot = [GT.un_q(x) for x in a2[2]] if a2[0] == 0 else []
     return {"times": [fq(t) for t in times], "bpms": [fq(GT.un_q(x)) for x in a[3]], "default": [fq(stop_tag[b]) for b in bs],
             "shifted": [fq(t - Fraction(3, 2)) for t in times], "redundant": [fq(t) for t in times],
-            "back": [fq(t) for t in times], "shuf": [fq(t) for t in times]}
+            "back": [fq(t) for t in times], "shuf": [fq(t) for t in times],
+            "off_times": [[fq(t) for t in ot[i * 7:i * 7 + 7]] for i in range(len(ot) // 7)], "off_bpms": [fq(GT.un_q(x)) for x in a2[3]] if a2[0] == 0 else []}
 
 
 def close(f, q):
@@ -155,6 +183,10 @@ def agree(io, mo):
     if not all(close(f, q) for f, q in zip(io["times"], mo["times"])):
         return False
     if [Fraction(Decimal(x)) for x in io["bpms"]] != [Fraction(q[0], q[1]) for q in mo["bpms"]]:
+        return False
+    if [Fraction(Decimal(x)) for x in io["off_bpms"]] != [Fraction(q[0], q[1]) for q in mo["off_bpms"]]:
+        return False
+    if len(io["off_times"]) != len(mo["off_times"]) or not all(close(f, q) for row, mrow in zip(io["off_times"], mo["off_times"]) for f, q in zip(row, mrow)):
         return False
     return all(close(f, q) for k in ("default", "shifted", "redundant", "back", "shuf") for f, q in zip(io[k], mo[k]))
 
@@ -184,6 +216,15 @@ def oracle(c, o):
     for b, got in zip(bs, o["bpms"]):
         if Fraction(Decimal(got)) != GT.spec_bpm(td, Fraction(b, 48)):
             return "bpm_at(%s) = %s, last BPM change at or before it is %s" % (Fraction(b, 48), got, GT.spec_bpm(td, Fraction(b, 48)))
+    # beats off the tick grid
+    for (n, d), row, gb in zip(off_probes(c), o["off_times"], o["off_bpms"]):
+        q = Fraction(n, d)
+        if Fraction(Decimal(gb)) != GT.spec_bpm(td, q):
+            return "bpm_at(%s) = %s, last BPM change at or before it is %s" % (q, gb, GT.spec_bpm(td, q))
+        for t, got in enumerate(row):
+            want = GT.spec_time(td, q, t)
+            if not close(got, want):
+                return "time_at(beat %s, %s) = %r, exact timeline gives %s" % (q, GT.TAGS[t], got, float(want))
     return None
 
 
